@@ -604,6 +604,10 @@ def _judge_node(ev, b, spec, schema, r, pidx, xsd) -> list[Disc]:
             return tag + '@builtin-list-type'
         if not t.startswith('xs:') and not G._qname_free(G.resolve(spec, t)):
             return tag + '@qname-derived-type'
+        if not t.startswith('xs:'):
+            rt = G.resolve(spec, t)
+            if rt['variety'] == 'atomic' and rt['facet'] is not None and rt['facet'][0] == 'pattern':
+                return tag + '@pattern-type'
         return tag
 
     named = [t for t in chain if t not in ('xs:anyAtomicType', 'xs:anySimpleType')]
@@ -991,7 +995,7 @@ def selftest():
 def jobs(tier, seed):
     q = tier == 'quick'
     shards = 16
-    n = 90 if q else 1200
+    n = 90 if q else 900
     return [{'check': 'all', 'shard': i, 'n': n, 'seed': derive_seed(seed, 'C20', 'all', i)} for i in range(shards)]
 
 
